@@ -48,6 +48,12 @@ def abort_sweep(chk):
   judged here on the teardown clauses only"""
   import sys
   from checks import c04
+  from vf import tlc
+  res = tlc.must_pass(tlc.run('AbortHandshake', 'AbortHandshake_fixed.cfg', workers=8), 'AbortHandshake design check')
+  chk.add_tlc('AbortHandshake (EnteredMeansTeardown, SetupFailedNothingRuns, TeardownAllRun under one or two aborts)', res)
+  neg = tlc.run('AbortHandshake', 'AbortHandshake_postloop.cfg', workers=8)
+  if 'EnteredMeansTeardown' not in neg.invariant_violated:
+    raise tlc.TLCError('sensitivity: PostLoopAbortCheck=TRUE should violate EnteredMeansTeardown')
   sys.argv = sys.argv[:1]
   from vf import build, explore  # noqa: F401
   quick = chk.tier == 'quick'
